@@ -48,6 +48,7 @@ def corpus(rng):
     """(name, world, pre, setup, reqs): regression pairs, each run under every placement."""
     w = xc.owner_world(rng)
     wo = xc.owner_world(rng, open_reads=True)
+    wd = xc.owner_world(rng, deep=True)
     cal1 = xc.PREDEF_VARIANTS[1]
     ev = (0, "CEvent", 0)
     homes = [(1, ("RPropfind", (10,), False)), (2, ("RPropfind", (11,), False))]
@@ -80,11 +81,12 @@ def corpus(rng):
         ("two-users", w, cal1, [], [PUT(1, (10, 20, 100), ev), PUT(2, (11, 20, 100), ev)]),
         ("anonymous", w, [], cal, [(0, ("RPropfind", (10, 20), True)), PUT(1, (10, 20, 100), ev)]),
         # check-then-act shapes: a handler that tests under one lock and acts under another would show here
-        ("mkcol-vs-whole-put", w, [], homes, [(1, ("RMkcol", (10, 20, 21), ("XNone",))),
+        ("mkcol-vs-whole-put", wd, [], homes + [(1, ("RMkcol", (10, 20), ("XNone",)))], [(1, ("RMkcol", (10, 20, 21), ("XNone",))),
                                               (1, ("RPut", (10, 20), "CTCal", ("BCal", [ev]), ("CNone",), False))]),
-        ("mkcalendar-vs-whole-put", w, [], homes, [(1, ("RMkcalendar", (10, 20, 21), ("XNone",))),
+        ("mkcalendar-vs-whole-put", wd, [], homes + [(1, ("RMkcol", (10, 20), ("XNone",)))], [(1, ("RMkcalendar", (10, 20, 21), ("XNone",))),
                                                    (1, ("RPut", (10, 20), "CTCal", ("BCal", [ev]), ("CNone",), False))]),
-        ("mkcol-vs-mkcol-parent", w, [], homes, [(1, ("RMkcol", (10, 22, 20), ("XNone",))), (1, ("RMkcalendar", (10, 22), ("XNone",)))]),
+        ("mkcol-vs-delete-parent", wd, [], homes + [(1, ("RMkcol", (10, 22), ("XNone",)))],
+         [(1, ("RMkcol", (10, 22, 20), ("XNone",))), (1, ("RDelete", (10, 22), ("CNone",)))]),
         ("delete-if-match-vs-put", w, [], cal + [PUT(1, (10, 20, 100), ev)],
          [(1, ("RDelete", (10, 20, 100), ("CTag", ("EtItem", ev)))), PUT(1, (10, 20, 100), (0, "CEvent", 1))]),
         ("put-if-match-vs-put", w, [], cal + [PUT(1, (10, 20, 100), ev)],
@@ -95,7 +97,8 @@ def corpus(rng):
     ]
 
 
-PLACEMENTS = xc.merges([0, 0, 0, 0], [1, 1, 1, 1])    # 70 placements of B's (<= 4) sections relative to A's (<= 4)
+PLACEMENTS = xc.merges([0, 0, 0], [1, 1, 1])          # the 20 placements of B's (<= 3) sections relative to A's (<= 3)
+PLACEMENTS4 = xc.merges([0, 0, 0, 0], [1, 1, 1, 1])   # 70 placements for requests with a fourth section (sampled)
 
 
 def gen_pair(rng):
@@ -179,10 +182,19 @@ def run_schedule_cases(ctx, et, cases, tag):
         n, w, pre, setup, reqs, turns, st = cases[0]
         ctx.samples.append(dict(schedule=n, requests=[repr(q) for q in reqs], turns=turns, lock_log=[list(e) for e in runs[0]["log"]],
                                 responses=[repr(c) for c in runs[0]["resps"]]))
-    bad = ctx.diff_cases(tag + "_pred", xc.COQ_HEADER, "run_sched", pairs, xc.enc_sched_case, xc.enc_sched_out, "pred_eqb", shard=40)
-    nonser = ctx.diff_cases(tag + "_ser", xc.COQ_HEADER, "(fun c => c)", pairs, xc.enc_sched_case, xc.enc_sched_out, "ser_case", shard=40)
-    if bad is None or nonser is None:
+    # one pass: model prediction equal AND outcome serialisable; the (few) failing cases are then told apart
+    either = ctx.diff_cases(tag + "_both", xc.COQ_HEADER, "(fun c => c)", pairs, xc.enc_sched_case, xc.enc_sched_out, "both_ok", shard=40)
+    if either is None:
         return
+    bad, nonser = [], []
+    if either:
+        sub = [pairs[i] for i in either]
+        b1 = ctx.diff_cases(tag + "_pred", xc.COQ_HEADER, "run_sched", sub, xc.enc_sched_case, xc.enc_sched_out, "pred_eqb", shard=40)
+        b2 = ctx.diff_cases(tag + "_ser", xc.COQ_HEADER, "(fun c => c)", sub, xc.enc_sched_case, xc.enc_sched_out, "ser_case", shard=40)
+        if b1 is None or b2 is None:
+            return
+        bad = [either[k] for k in b1]
+        nonser = [either[k] for k in b2]
     ctx.obligation("correspondence:%s-schedules" % tag, not bad,
                    "" if not bad else "the implementation differs from the model of the repaired gate on %d of %d schedules, first: %s %r" % (
                        len(bad), len(cases), cases[bad[0]][0], cases[bad[0]][5]))
@@ -231,7 +243,7 @@ def part_schedules(ctx, et):
     rng = ctx.rng
     cases = []
     for name, world, pre, setup, reqs in corpus(rng):
-        for k, turns in enumerate(PLACEMENTS if SCALE >= 1 else PLACEMENTS[::int(1 / SCALE)]):
+        for k, turns in enumerate((PLACEMENTS + rng.sample(PLACEMENTS4, 4)) if SCALE >= 1 else PLACEMENTS[::int(1 / SCALE)]):
             cases.append((name, world, pre, setup, reqs, turns, "multifilesystem" if k % 2 == 0 else "multifilesystem_nolock"))
     ctx.count("schedules:corpus", len(cases))
     run_schedule_cases(ctx, et, cases, "corpus")
